@@ -8,5 +8,17 @@ SHAPES = {
     "InStream": {"__class__": "Stream", "data": "bytes", "pos": "int", "rem": "bytes",
                  "eof_hit": "bool", "seekable": "bool", "readable": "bool"},
     "BinaryEncoder": {"_fo": "OutStream"},
+    # the Writer's in-memory block buffer (BinaryEncoder over a BytesIO)
+    "BufferEncoder": {"__class__": "BinaryEncoder", "_fo": "OutStream"},
+    "Block": {"bytes_": "OutStream", "num_records": "int"},
+    # Writer: validate_fn is None here (validator off); block_writer is an entry of BLOCK_WRITERS
+    "Writer": {"encoder": "BinaryEncoder", "io": "BufferEncoder", "block_count": "int", "sync_interval": "int",
+               "compression_level": "py", "sync_marker": "bytes", "schema": "py", "_named_schemas": "dict",
+               "options": "dict", "validate_fn": "none", "metadata": "dict",
+               "block_writer": "tablefn:fastavro/_write_py.py:BLOCK_WRITERS"},
+    "WriterV": {"__class__": "Writer", "encoder": "BinaryEncoder", "io": "BufferEncoder", "block_count": "int", "sync_interval": "int",
+                "compression_level": "py", "sync_marker": "bytes", "schema": "py", "_named_schemas": "dict",
+                "options": "dict", "validate_fn": "fn:fastavro/_validation_py.py:_validate", "metadata": "dict",
+                "block_writer": "tablefn:fastavro/_write_py.py:BLOCK_WRITERS"},
     "BinaryDecoder": {"fo": "InStream", "_block_count": "int"},
 }
